@@ -39,6 +39,8 @@ CLAIMED = {
          NOTE % "A-JSON; LinkedHashMap.FromJSON (known finding), AVLTree, BTree, TreeBidiMap.", "DESIGN.md §4 C11/C12"),
  "C13": (GENERIC % "HashSet, LinkedHashSet and TreeSet Intersection/Union/Difference: exact membership, operands unchanged (frame), result freshly allocated with the operands' comparator; identical-operand case included.",
          NOTE % "none of the nine operations.", "DESIGN.md §4 C13"),
+ "C14": (GENERIC % "Each (exact callback sequence through a ghost call log: the iterator's pairs at positions 0..n-1, in order, once each), Any/All/Find (exists / for-all / first match), Select (exactly the matching elements, original relative order via ghost position maps or ranks, same comparator) and Map on the three lists, TreeSet, LinkedHashSet, TreeMap, LinkedHashMap; Each/Any/All/Find on TreeBidiMap; receiver unchanged (frame) and result freshly allocated.",
+         NOTE % "Map on sets/maps is proved in the direction 'every mapped element is in the result' (and size bound) only; TreeBidiMap Select/Map.", "DESIGN.md §4 C14"),
  "C15": (GENERIC % "Size/Empty/Values/Clear agreement for the containers under contract so far (ring, array list/stack/queue, hash map/set/bidimap, heap, priority queue, doubly linked list).",
          NOTE % "String(); the tree-backed and linked-hash containers.", "DESIGN.md §4 C15"),
  "C16": (GENERIC % "freshness of returned slices and ownership of stored slices (Owned two-state predicate) for ArrayList and its wrappers, ring, hash containers; argument slices are only read (frame).",
